@@ -6,6 +6,7 @@ package main
 
 import (
 	"bytes"
+	"context"
 	"encoding/binary"
 	"fmt"
 	"hash/crc32"
@@ -17,6 +18,9 @@ import (
 	"sort"
 	"strconv"
 	"strings"
+	"sync"
+	"sync/atomic"
+	"time"
 
 	badger "github.com/dgraph-io/badger/v4"
 	"github.com/dgraph-io/badger/v4/options"
@@ -31,6 +35,7 @@ func init() {
 	engines["manifest"] = &Engine{Gen: genManifest, Exec: execManifest}
 	engines["bloom"] = &Engine{Gen: genBloom, Exec: execBloom}
 	engines["trie"] = &Engine{Gen: genTrie, Exec: execTrie}
+	engines["subscribe"] = &Engine{Gen: genSubscribe, Exec: execSubscribe}
 }
 
 func auxScratch() string {
@@ -1472,8 +1477,9 @@ func execTrie(ops []string, st *Stats) ([]string, []string) {
 					case len(kvs) > 1:
 						fail(fmt.Sprintf("[publisher-exactly-once] subscriber %d received %d copies", id, len(kvs)))
 					case len(kvs) == 1 && !want:
-						st.Inc("ppub:F10")
-						fail(fmt.Sprintf("[F10:publisher-internal-key] subscriber %d receives user key %x (version %d) which matches none of its patterns: the trie is queried with the internal key incl. timestamp bytes", id, key, ts))
+						// (this was finding F10 — the trie was queried with the internal key — fixed in 3672e07)
+						st.Inc("ppub:not-matching")
+						fail(fmt.Sprintf("[publisher-only-matching] subscriber %d receives user key %x (version %d) which matches none of its patterns", id, key, ts))
 					case len(kvs) == 0 && want:
 						fail(fmt.Sprintf("[publisher-missing] subscriber %d has a pattern matching user key %x but received nothing", id, key))
 					}
@@ -1704,3 +1710,655 @@ func genTrie(rng *rand.Rand, n int, st *Stats) []string {
 }
 
 var _ = math.MaxUint32
+
+
+// =====================================================================================
+// subscribe: the real DB.Subscribe on a real (in-memory) DB. Model: lean/BadgerModel/Publisher.lean
+// =====================================================================================
+//
+// Determinism without sleeps:
+//   * registration: Subscribe runs in a goroutine; the op returns once publisher.nextID has moved
+//     (newSubscriber increments it in the critical section that also adds the matches) or
+//     Subscribe has returned an error;
+//   * "everything published so far has reached the channels": subscriber 0 (registered by
+//     `reset`, empty prefix) also receives the `!badger!txn` end marker of every commit; when it
+//     has seen the marker of the last commit, the publishUpdates call that contained it is under
+//     way, and taking the publisher lock once waits for its end (it sends every batch while
+//     holding the lock);
+//   * cancel: after that barrier the op waits until the subscriber's channel is empty, cancels
+//     the context and waits for Subscribe to return — a batch the loop had already taken out of
+//     the channel is handed to the callback before the loop looks at the context again;
+//   * waits are bounded (generous) and only in the "should arrive" direction; after the first
+//     timeout of a run the bound drops so that a broken implementation does not stall the run.
+
+type subKV struct {
+	ver  uint64
+	key  []byte
+	val  []byte
+	meta []byte
+	exp  uint64
+}
+
+func (k subKV) String() string {
+	m := 0
+	if len(k.meta) > 0 {
+		m = int(k.meta[0])
+	}
+	return fmt.Sprintf("%d:%s:%s:%d:%d", k.ver, hx(k.key), hx(k.val), m, k.exp)
+}
+
+type subWrite struct {
+	key, val []byte
+	meta     byte
+	exp      uint64
+	del      bool
+}
+
+type subCommit struct {
+	ts     uint64
+	writes []subWrite // canonical: last write per key, sorted by key
+}
+
+type subRec struct {
+	id     uint64
+	ok     bool
+	cancel context.CancelFunc
+	done   chan error
+	mu     sync.Mutex
+	got    []subKV
+	maxVer atomic.Uint64
+	gate   chan struct{}
+	gated  bool
+	once   sync.Once
+	pats   [][]int
+	from   int // number of commits before registration
+	upto   int // number of commits at removal (-1: still subscribed)
+	handle *badger.VerifSubHandle
+	gone   bool
+}
+
+func (r *subRec) release() { r.once.Do(func() { close(r.gate) }) }
+
+type subSession struct {
+	db      *badger.DB
+	subs    []*subRec
+	commits []subCommit
+	lastTs  uint64
+}
+
+var subTimedOut atomic.Bool
+var subOpTime = map[string]time.Duration{}
+
+func subWait(cond func() bool) bool {
+	limit := 30 * time.Second
+	if subTimedOut.Load() {
+		limit = 300 * time.Millisecond
+	}
+	deadline := time.Now().Add(limit)
+	for i := 0; ; i++ {
+		if cond() {
+			return true
+		}
+		if time.Now().After(deadline) {
+			subTimedOut.Store(true)
+			return false
+		}
+		if i < 200 {
+			time.Sleep(20 * time.Microsecond)
+		} else {
+			time.Sleep(time.Millisecond)
+		}
+	}
+}
+
+func openSubscribeDB() (*badger.DB, error) {
+	opt := badger.DefaultOptions("").WithInMemory(true).WithLoggingLevel(badger.ERROR).
+		WithMemTableSize(1 << 20).WithValueThreshold(1 << 10).WithNumCompactors(2).WithNumMemtables(2).
+		WithCompression(options.None).WithBlockCacheSize(0).WithIndexCacheSize(0).WithMetricsEnabled(false)
+	return badger.Open(opt)
+}
+
+func (s *subSession) teardown() {
+	if s == nil || s.db == nil {
+		return
+	}
+	for _, r := range s.subs {
+		if r != nil && r.ok {
+			r.release()
+			r.cancel()
+		}
+	}
+	done := make(chan struct{})
+	go func() { _ = s.db.Close(); close(done) }()
+	select {
+	case <-done:
+	case <-time.After(20 * time.Second):
+	}
+	s.db = nil
+}
+
+// subscribe registers one subscriber through the real DB.Subscribe.
+func (s *subSession) subscribe(ms []pb.Match, gated bool) *subRec {
+	r := &subRec{id: uint64(len(s.subs)), done: make(chan error, 1), gate: make(chan struct{}), gated: gated,
+		from: len(s.commits), upto: -1}
+	for j := range ms {
+		if ign, ok := specIgnore(ms[j].IgnoreBytes); ok {
+			r.pats = append(r.pats, mkPat(ms[j].Prefix, ign))
+		}
+	}
+	ctx, cancel := context.WithCancel(context.Background())
+	r.cancel = cancel
+	n0 := badger.VerifPubNextID(s.db)
+	cb := func(l *badger.KVList) error {
+		r.mu.Lock()
+		for _, kv := range l.Kv {
+			r.got = append(r.got, subKV{ver: kv.Version, key: append([]byte{}, kv.Key...), val: append([]byte{}, kv.Value...),
+				meta: append([]byte{}, kv.Meta...), exp: kv.ExpiresAt})
+			if kv.Version > r.maxVer.Load() {
+				r.maxVer.Store(kv.Version)
+			}
+		}
+		r.mu.Unlock()
+		if r.gated {
+			<-r.gate
+		}
+		return nil
+	}
+	// newSubscriber fails exactly when an ignore string does not parse (the callback is never
+	// nil here); it has then already taken an id. Knowing this beforehand tells which of the two
+	// events to wait for.
+	willFail := false
+	for j := range ms {
+		if _, err := trie.VerifParseIgnoreBytes(ms[j].IgnoreBytes); err != nil {
+			willFail = true
+		}
+	}
+	go func() { r.done <- s.db.Subscribe(ctx, cb, ms) }()
+	s.subs = append(s.subs, r)
+	if willFail {
+		returned := false
+		subWait(func() bool {
+			select {
+			case <-r.done:
+				returned = true
+				return true
+			default:
+				return false
+			}
+		})
+		r.ok = false
+		cancel()
+		if !returned {
+			// Subscribe did not fail although an ignore string is invalid
+			r.ok = true
+			r.handle = badger.VerifSubHandleOf(s.db, r.id)
+		}
+		return r
+	}
+	subWait(func() bool { return badger.VerifPubNextID(s.db) == n0+1 })
+	r.ok = true
+	r.handle = badger.VerifSubHandleOf(s.db, r.id)
+	return r
+}
+
+// barrier: every batch of every commit so far is in the channels (or further).
+func (s *subSession) barrier() {
+	if s.lastTs == 0 || len(s.subs) == 0 {
+		return
+	}
+	w := s.subs[0]
+	subWait(func() bool { return w.maxVer.Load() >= s.lastTs })
+	badger.VerifPubBarrier(s.db)
+}
+
+func (r *subRec) snapshot() []subKV {
+	r.mu.Lock()
+	defer r.mu.Unlock()
+	return append([]subKV{}, r.got...)
+}
+
+var badgerPrefixBytes = []byte("!badger!")
+
+// canonical: internal keys dropped, entries of one version (one transaction: map iteration
+// order in commitAndSend) sorted by key. The raw order is judged by the oracle.
+func subCanonical(raw []subKV) []subKV {
+	var l []subKV
+	for _, k := range raw {
+		if !bytes.HasPrefix(k.key, badgerPrefixBytes) {
+			l = append(l, k)
+		}
+	}
+	sort.SliceStable(l, func(i, j int) bool {
+		if l[i].ver != l[j].ver {
+			return false
+		}
+		return bytes.Compare(l[i].key, l[j].key) < 0
+	})
+	// SliceStable with a partial order is only safe when equal-version entries are contiguous:
+	// regroup explicitly.
+	out := make([]subKV, 0, len(l))
+	for i := 0; i < len(l); {
+		j := i
+		for j < len(l) && l[j].ver == l[i].ver {
+			j++
+		}
+		g := append([]subKV{}, l[i:j]...)
+		sort.SliceStable(g, func(a, b int) bool { return bytes.Compare(g[a].key, g[b].key) < 0 })
+		out = append(out, g...)
+		i = j
+	}
+	return out
+}
+
+func subListStr(l []subKV) string {
+	if len(l) == 0 {
+		return "-"
+	}
+	s := make([]string, len(l))
+	for i, k := range l {
+		s[i] = k.String()
+	}
+	return strings.Join(s, ",")
+}
+
+func patMatchesKey(p []int, key []byte) bool {
+	if len(key) < len(p) {
+		return false
+	}
+	for j, c := range p {
+		if c >= 0 && int(key[j]) != c {
+			return false
+		}
+	}
+	return true
+}
+
+// judge: the C32 delivery clause for one subscriber whose subscription has ended.
+// complete = everything owed must have arrived (true for close and for our cancel, which waits).
+func (s *subSession) judge(r *subRec, raw []subKV, fail func(string)) {
+	var want []subKV
+	for _, c := range s.commits[r.from:r.upto] {
+		for _, w := range c.writes {
+			m := false
+			for _, p := range r.pats {
+				m = m || patMatchesKey(p, w.key)
+			}
+			if m {
+				k := subKV{ver: c.ts, key: w.key, val: w.val, meta: []byte{w.meta}, exp: w.exp}
+				if w.del {
+					k.val, k.meta, k.exp = nil, []byte{0}, 0
+				}
+				want = append(want, k)
+			}
+		}
+	}
+	// commit order on the raw sequence (internal keys included)
+	for i := 1; i < len(raw); i++ {
+		if raw[i].ver < raw[i-1].ver {
+			fail(fmt.Sprintf("[sub-order] subscriber %d received version %d after version %d", r.id, raw[i].ver, raw[i-1].ver))
+			break
+		}
+	}
+	got := subCanonical(raw)
+	type k2 struct {
+		ver uint64
+		key string
+	}
+	wantSet := map[k2]subKV{}
+	for _, k := range want {
+		wantSet[k2{k.ver, string(k.key)}] = k
+	}
+	seen := map[k2]int{}
+	for _, k := range got {
+		id := k2{k.ver, string(k.key)}
+		w, ok := wantSet[id]
+		seen[id]++
+		switch {
+		case !ok:
+			m := false
+			for _, p := range r.pats {
+				m = m || patMatchesKey(p, k.key)
+			}
+			if !m {
+				fail(fmt.Sprintf("[sub-only-matching] subscriber %d received key %x (version %d) which matches none of its patterns", r.id, k.key, k.ver))
+			} else {
+				fail(fmt.Sprintf("[sub-only-matching] subscriber %d received key %x version %d which was not committed while it was subscribed", r.id, k.key, k.ver))
+			}
+		case seen[id] > 1:
+			fail(fmt.Sprintf("[sub-exactly-once] subscriber %d received key %x version %d %d times", r.id, k.key, k.ver, seen[id]))
+		case k.String() != w.String() || len(k.meta) != 1:
+			fail(fmt.Sprintf("[sub-kv] subscriber %d received %s for the committed write %s", r.id, k, w))
+		}
+	}
+	for _, k := range want {
+		if seen[k2{k.ver, string(k.key)}] == 0 {
+			fail(fmt.Sprintf("[sub-missing] subscriber %d never received key %x version %d although it matches and was committed while subscribed", r.id, k.key, k.ver))
+		}
+	}
+}
+
+func parseSubWrites(w string) ([]subWrite, bool) {
+	var out []subWrite
+	for _, p := range strings.Split(w, ";") {
+		f := strings.Split(p, ":")
+		switch {
+		case f[0] == "s" && len(f) == 5:
+			out = append(out, subWrite{key: unhx(f[1]), val: unhx(f[2]), meta: byte(atou(f[3])), exp: atou(f[4])})
+		case f[0] == "d" && len(f) == 2:
+			out = append(out, subWrite{key: unhx(f[1]), del: true})
+		default:
+			return nil, false
+		}
+	}
+	return out, true
+}
+
+func canonSubWrites(ws []subWrite) []subWrite {
+	last := map[string]subWrite{}
+	for _, w := range ws {
+		last[string(w.key)] = w
+	}
+	keys := make([]string, 0, len(last))
+	for k := range last {
+		keys = append(keys, k)
+	}
+	sort.Strings(keys)
+	out := make([]subWrite, 0, len(keys))
+	for _, k := range keys {
+		out = append(out, last[k])
+	}
+	return out
+}
+
+func applySubWrites(txn *badger.Txn, ws []subWrite) error {
+	for _, w := range ws {
+		if w.del {
+			if err := txn.Delete(w.key); err != nil {
+				return err
+			}
+			continue
+		}
+		e := badger.NewEntry(w.key, w.val).WithMeta(w.meta)
+		e.ExpiresAt = w.exp
+		if err := txn.SetEntry(e); err != nil {
+			return err
+		}
+	}
+	return nil
+}
+
+func (s *subSession) readTs() uint64 {
+	txn := s.db.NewTransaction(false)
+	defer txn.Discard()
+	return txn.ReadTs()
+}
+
+func execSubscribe(ops []string, st *Stats) ([]string, []string) {
+	outs := make([]string, len(ops))
+	var oracle []string
+	var s *subSession
+	defer func() {
+		s.teardown()
+		if os.Getenv("VERIF_SUB_TIMING") != "" {
+			fmt.Fprintln(os.Stderr, subOpTime)
+		}
+	}()
+	for i, l := range ops {
+		w := strings.Fields(l)
+		i, l := i, l
+		st.Inc("op:" + w[0])
+		fail := func(msg string) { oracle = append(oracle, fmt.Sprintf("line %d: %s :: %s", i+1, l, msg)) }
+		t0 := time.Now()
+		outs[i] = safely(func() string {
+			defer func() { subOpTime[w[0]] += time.Since(t0) }()
+			if w[0] == "reset" && len(w) == 1 {
+				s.teardown()
+				db, err := openSubscribeDB()
+				if err != nil {
+					panic(err)
+				}
+				s = &subSession{db: db}
+				r := s.subscribe([]pb.Match{{}}, false)
+				if !r.ok {
+					return "err"
+				}
+				return "ok " + utoa(r.id)
+			}
+			if s == nil || s.db == nil {
+				return "bad-op"
+			}
+			switch {
+			case (w[0] == "sub" || w[0] == "subg") && len(w) >= 3 && len(w)%2 == 1:
+				var ms []pb.Match
+				for j := 1; j+1 < len(w); j += 2 {
+					ms = append(ms, pb.Match{Prefix: unhx(w[j]), IgnoreBytes: string(unhx(w[j+1]))})
+				}
+				// every earlier commit must have gone through publishUpdates: a subscriber also receives
+				// writes committed shortly before its registration if the publisher has not caught up
+				s.barrier()
+				r := s.subscribe(ms, w[0] == "subg")
+				if !r.ok {
+					st.Inc("sub:err")
+					return "err"
+				}
+				return utoa(r.id)
+			case w[0] == "txn" && len(w) == 2:
+				ws, ok := parseSubWrites(w[1])
+				if !ok {
+					return "bad-op"
+				}
+				if err := s.db.Update(func(txn *badger.Txn) error { return applySubWrites(txn, ws) }); err != nil {
+					return "err:" + strings.ReplaceAll(err.Error(), " ", "_")
+				}
+				ts := s.readTs()
+				s.lastTs = ts
+				s.commits = append(s.commits, subCommit{ts: ts, writes: canonSubWrites(ws)})
+				st.Inc("txn:writes=" + strconv.Itoa(len(ws)))
+				return "ok " + utoa(ts)
+			case w[0] == "atxn" && len(w) >= 2:
+				var wss [][]subWrite
+				for _, t := range w[1:] {
+					ws, ok := parseSubWrites(t)
+					if !ok {
+						return "bad-op"
+					}
+					wss = append(wss, ws)
+				}
+				base := s.readTs()
+				txns := make([]*badger.Txn, len(wss))
+				for j, ws := range wss {
+					txns[j] = s.db.NewTransaction(true)
+					if err := applySubWrites(txns[j], ws); err != nil {
+						return "err:" + strings.ReplaceAll(err.Error(), " ", "_")
+					}
+				}
+				var wg sync.WaitGroup
+				errs := make([]error, len(wss))
+				for j := range txns {
+					j := j
+					wg.Add(1)
+					// commit timestamps are handed out in the order of these calls (writeChLock)
+					txns[j].CommitWith(func(err error) { errs[j] = err; wg.Done() })
+				}
+				wg.Wait()
+				for _, err := range errs {
+					if err != nil {
+						return "err:" + strings.ReplaceAll(err.Error(), " ", "_")
+					}
+				}
+				for j, ws := range wss {
+					s.commits = append(s.commits, subCommit{ts: base + uint64(j) + 1, writes: canonSubWrites(ws)})
+				}
+				ts := s.readTs()
+				s.lastTs = ts
+				st.Inc("atxn:n=" + strconv.Itoa(len(wss)))
+				return "ok " + utoa(ts)
+			case w[0] == "cancel" && len(w) == 2:
+				id := atou(w[1])
+				if id == 0 {
+					return "bad-op"
+				}
+				if id >= uint64(len(s.subs)) || !s.subs[id].ok || s.subs[id].gone {
+					return "gone"
+				}
+				r := s.subs[id]
+				s.barrier()
+				r.release()
+				subWait(func() bool { return r.handle.QueueLen() == 0 })
+				r.cancel()
+				subWait(func() bool {
+					select {
+					case <-r.done:
+						return true
+					default:
+						return false
+					}
+				})
+				r.gone = true
+				r.upto = len(s.commits)
+				raw := r.snapshot()
+				s.judge(r, raw, fail)
+				return subListStr(subCanonical(raw))
+			case w[0] == "close" && len(w) == 1:
+				s.barrier()
+				leaked := false
+				for _, r := range s.subs {
+					leaked = leaked || !r.ok
+				}
+				if leaked {
+					// A Subscribe call that failed (invalid IgnoreBytes) has left its subscriber
+					// registered; cleanSubscribers waits for a Subscribe loop that does not exist.
+					closed := make(chan struct{})
+					db := s.db
+					go func() { _ = db.Close(); close(closed) }()
+					s.db = nil
+					select {
+					case <-closed:
+						return "closed-despite-leak"
+					case <-time.After(time.Second):
+						st.Inc("close:hang")
+						fail("[F24:subscribe-error-leaks-subscriber] DB.Close does not return: a failed Subscribe left a subscriber behind whose closer is never released")
+						return "hang"
+					}
+				}
+				var live []*subRec
+				for _, r := range s.subs {
+					if r.ok && !r.gone {
+						live = append(live, r)
+					}
+				}
+				closed := make(chan struct{})
+				go func() { _ = s.db.Close(); close(closed) }()
+				// a gated callback is released only once its subscriber has been told that the DB
+				// is closing, so that its pending batches go through the close path of Subscribe
+				subWait(func() bool {
+					for _, r := range live {
+						if r.gated && r.handle.CloserSignaled() {
+							r.release()
+						}
+					}
+					select {
+					case <-closed:
+						return true
+					default:
+						return false
+					}
+				})
+				for _, r := range live {
+					r.release()
+				}
+				var parts []string
+				for _, r := range live {
+					subWait(func() bool {
+						select {
+						case <-r.done:
+							return true
+						default:
+							return false
+						}
+					})
+					r.gone = true
+					r.upto = len(s.commits)
+					raw := r.snapshot()
+					s.judge(r, raw, fail)
+					parts = append(parts, fmt.Sprintf("%d=%s", r.id, subListStr(subCanonical(raw))))
+				}
+				s.db = nil
+				return strings.Join(parts, "|")
+			}
+			return "bad-op"
+		})
+	}
+	return outs, oracle
+}
+
+func genSubWrite(rng *rand.Rand) string {
+	k := append(genTrieKey(rng, 3), trieAlphabet[rng.Intn(len(trieAlphabet))])
+	if rng.Intn(6) == 0 {
+		return "d:" + hx(k)
+	}
+	v := make([]byte, rng.Intn(4))
+	rng.Read(v)
+	meta := []int{0, 0, 1, 0x7f, 0xff}[rng.Intn(5)]
+	exp := []uint64{0, 0, 0, 1, 4102444800, 1<<64 - 1}[rng.Intn(6)]
+	return fmt.Sprintf("s:%s:%s:%d:%d", hx(k), hx(v), meta, exp)
+}
+
+func genSubTxn(rng *rand.Rand) string {
+	n := 1 + rng.Intn(4)
+	ws := make([]string, n)
+	for i := range ws {
+		ws[i] = genSubWrite(rng)
+	}
+	if n > 1 && rng.Intn(4) == 0 {
+		// the same key twice in one transaction: the last write wins
+		f := strings.Split(ws[0], ":")
+		ws[n-1] = "s:" + f[1] + ":" + hx([]byte{byte(rng.Intn(256))}) + ":0:0"
+	}
+	return strings.Join(ws, ";")
+}
+
+func genSubscribe(rng *rand.Rand, n int, st *Stats) []string {
+	var ops []string
+	for c := 0; c < n; c++ {
+		ops = append(ops, "reset")
+		nsubs := 1
+		badSession := rng.Intn(100) == 0
+		for k := 0; k < 6+rng.Intn(16); k++ {
+			switch r := rng.Intn(20); {
+			case r < 5:
+				op := "sub"
+				if rng.Intn(5) == 0 {
+					op = "subg"
+					st.Inc("sub:gated")
+				}
+				for m := 0; m < 1+rng.Intn(2); m++ {
+					p := genTrieKey(rng, 3)
+					ig := trieIgnoreValid[rng.Intn(len(trieIgnoreValid))]
+					if badSession && rng.Intn(4) == 0 {
+						// rare: DB.Close hangs afterwards (finding F24), the session costs a second
+						ig = trieIgnoreBad[rng.Intn(len(trieIgnoreBad))]
+						st.Inc("sub:bad-ignore")
+					}
+					op += " " + hx(p) + " " + hx([]byte(ig))
+				}
+				ops = append(ops, op)
+				nsubs++
+			case r < 13:
+				ops = append(ops, "txn "+genSubTxn(rng))
+			case r < 17:
+				op := "atxn"
+				for t := 0; t < 2+rng.Intn(5); t++ {
+					op += " " + genSubTxn(rng)
+				}
+				ops = append(ops, op)
+			default:
+				if nsubs > 1 {
+					ops = append(ops, fmt.Sprintf("cancel %d", 1+rng.Intn(nsubs-1)))
+				}
+			}
+		}
+		ops = append(ops, "close")
+	}
+	return ops
+}
